@@ -68,12 +68,12 @@ pub fn run(t: &[&str]) -> String {
 }
 
 pub fn gen(rng: &mut Rng, tier: Tier, out: &mut Vec<String>) {
-    let n_scenes = if tier == Tier::Quick { 15 } else { 300 };
+    let n_scenes = if tier == Tier::Quick { 16 } else { 300 };
     for i in 0..n_scenes {
         let ntris = [1usize, 2, 1, 3, 1][i % 5];
         // geometry first, flags substituted afterwards
-        // front doors in rotation: render(), a fresh Batch, a REUSED Batch (statistics must equal what happened)
-        let (hdr, _, _) = header(rng, ['r', 'B', 'b'][i % 3], "@TGT@", "@FLAGS@", 1);
+        // front doors in rotation: render(), a fresh Batch, a REUSED Batch, Camera::render (statistics must equal what happened)
+        let (hdr, _, _) = header(rng, ['r', 'B', 'b', 'c'][i % 4], "@TGT@", "@FLAGS@", 1);
         let mut verts: Vec<Vec<f32>> = vec![];
         let mut tris = vec![];
         for j in 0..ntris {
